@@ -75,7 +75,7 @@ func NewWriter(cfg Config, module string, shardSize int) *Writer {
 		panic(err)
 	}
 	return &Writer{cfg: cfg, module: module, shardSize: shardSize, jl: bufio.NewWriterSize(jf, 1<<20), jlF: jf,
-		seen: map[string]bool{}, dist: map[string]int{}, maxSample: 6, start: time.Now(), Meta: map[string]interface{}{}}
+		seen: map[string]bool{}, dist: map[string]int{}, samples: []interface{}{}, maxSample: 6, start: time.Now(), Meta: map[string]interface{}{}}
 }
 
 func (w *Writer) openShard(start int) {
@@ -95,7 +95,8 @@ func (w *Writer) closeShard() {
 	if w.cur == nil {
 		return
 	}
-	fmt.Fprintf(w.cur, "\n].\nDefinition R := Eval vm_compute in (List.length cases, failing %d cases).\nPrint R.\n", w.shards[len(w.shards)-1].Start)
+	// indices are shard-relative (the driver adds the shard's start): a large nat literal overflows coqc's stack
+	fmt.Fprintf(w.cur, "\n].\nDefinition R := Eval vm_compute in (List.length cases, failing 0 cases).\nPrint R.\n")
 	w.cur.Flush()
 	w.curF.Close()
 	w.shards[len(w.shards)-1].Count = w.curCount
